@@ -198,8 +198,8 @@ def r3_trivia(c, facts):
     nspan = 0
     positional = set()
     for fn in sorted(facts.fns.values(), key=lambda f: f.qname):
-        if not fn.mir or not fn.qname.startswith('oal_syntax::parser::parse_'):
-            continue
+        if not fn.mir or not re.match(r'^oal_syntax::parser::[a-z_]\w*(::\{closure#\d+\})*$', fn.qname):
+            continue        # the productions and their private helpers (free functions of the module), not the typed accessors
         for b, t in fn.calls():
             info = callee_of(t)
             if not info:
